@@ -305,18 +305,19 @@ def splice_fn(it_spec, item, contract, unit, em, extraction, active=None):
         for c in select(contract.get("sigtail"), active):
             em.add("    " + c.text.rstrip(), item=key, part="sigtail", origin=c.origin)
     # loops: splice from the last to the first so offsets stay valid
-    body = splice_loops(body, contract, key, active)
     if contract is not None:
         for sec in list(contract.sections):
-            m = re.match(r"after /(.*)/$", sec)
+            m = re.match(r"after /(.*)/(?: if (\S+))?$", sec)
             if not m:
                 continue
+            if m.group(2) and m.group(2) not in lower.loop_keys(lower.loops(body)):
+                continue   # anchor required only when that loop exists (alternative shape)
             hint = select_hints(contract.get(sec), active)
-            if not hint:
-                continue
             mm_ = re.search(m.group(1), body)
             if not mm_:
                 raise Unsupported("lost anchor: %s @after /%s/" % (key, m.group(1)))
+            if not hint:
+                continue
             # end of the statement: next ';' at bracket depth 0 relative to the match start
             depth, i = 0, mm_.start()
             while i < len(body):
@@ -331,6 +332,7 @@ def splice_fn(it_spec, item, contract, unit, em, extraction, active=None):
             if i >= len(body):
                 raise Unsupported("lost anchor: %s @after /%s/ (no statement end)" % (key, m.group(1)))
             body = body[:i + 1] + "\n" + "\n".join("/*@hint after*/ " + c.text for c in hint) + "\n" + body[i + 1:]
+    body = splice_loops(body, contract, key, active)
     ex = select_hints(contract.get("exit"), active) if contract is not None else []
     if ex:
         i = body.rstrip().rfind("}")
@@ -387,30 +389,28 @@ def loop_clause_text(cl):
 
 
 def splice_loops(body, contract, key, active=None):
+    """contract sections `loop KEY`, `loopend KEY`, `loopstart KEY`, `afterloop KEY`, `beforeloop KEY` where KEY is
+    kind#n (kind = while / for / loop / R1..R12: the n-th loop of that kind in the lowered text).  A section whose
+    loop does not exist is a lost anchor unless it is declared optional (`@loop? KEY`, used for alternative shapes)."""
     lp = lower.loops(body)
     if contract is None:
         return body
-    wanted = set()
+    keys = lower.loop_keys(lp)
     for sec in contract.sections:
-        m = re.match(r"(loop|loopend|loopstart|afterloop|beforeloop)\s+(\d+)$", sec)
-        if m:
-            wanted.add(int(m.group(2)))
-    if wanted and max(wanted) > len(lp):
-        raise Unsupported("lost anchor: %s has %d loops, contract mentions loop %d" % (key, len(lp), max(wanted)))
-    if contract.get("nloops"):
-        want = int(contract.get("nloops")[0].text)
-        if want != len(lp):
-            raise Unsupported("lost anchor: %s has %d loops, contract expects %d" % (key, len(lp), want))
+        m = re.match(r"(loop|loopend|loopstart|afterloop|beforeloop)(\??)\s+(\S+)$", sec)
+        if m and m.group(3) not in keys and not m.group(2):
+            raise Unsupported("lost anchor: %s has loops %s, contract mentions %s" % (key, keys, m.group(3)))
     ins = []
-    for n, (kw, ob, cb) in enumerate(lp, 1):
-        inv = select(contract.get("loop %d" % n), active)
+    for n, ((kw, ob, cb, kind), lk) in enumerate(zip(lp, keys), 1):
+        opt = bool(contract.get("loop? " + lk))
+        inv = select(contract.get("loop " + lk) + contract.get("loop? " + lk), active)
         if inv:
-            ins.append((ob, "\n/*@loop %d*/\n" % n + loop_clause_text(inv) + "\n/*@endloop*/\n"))
+            ins.append((ob, "\n/*@loop %s%s*/\n" % (lk, "?" if opt else "") + loop_clause_text(inv) + "\n/*@endloop*/\n"))
         for sec, off, nm in (("loopend", cb, "loopend"), ("afterloop", cb + 1, "afterloop"), ("beforeloop", kw, "beforeloop"),
                              ("loopstart", ob + 1, "loopstart")):
-            le = select_hints(contract.get("%s %d" % (sec, n)), active)
+            le = select_hints(contract.get("%s %s" % (sec, lk)) + contract.get("%s? %s" % (sec, lk)), active)
             if le:
-                ins.append((off, "\n" + "\n".join("/*@hint %s%d*/ %s" % (nm, n, c.text) for c in le) + "\n"))
+                ins.append((off, "\n" + "\n".join("/*@hint %s:%s*/ %s" % (nm, lk, c.text) for c in le) + "\n"))
     for off, txt in sorted(ins, key=lambda x: -x[0]):
         body = body[:off] + txt + body[off:]
     return body
@@ -419,22 +419,22 @@ def splice_loops(body, contract, key, active=None):
 def emit_body(body, key, em):
     loopn = None
     for line in body.split("\n"):
-        m = re.match(r"\s*/\*@loop (\d+)\*/", line)
+        m = re.match(r"\s*/\*@loop (\S+)\*/", line)
         if m:
-            loopn = int(m.group(1))
+            loopn = m.group(1)
             continue
         if re.match(r"\s*/\*@endloop\*/", line):
             loopn = None
             continue
         m = re.match(r"\s*/\*@kw\*/ (.*)$", line)
         if m:
-            em.add("      " + m.group(1), item=key, part="loop%d" % loopn)
+            em.add("      " + m.group(1), item=key, part="loop:%s" % loopn)
             continue
         m = re.match(r"\s*/\*@cl ([^|]*)\|([^|]*)\|([^*]*)\*/ (.*)$", line)
         if m:
-            em.add("        " + m.group(4), item=key, part="loop%d/%s" % (loopn, m.group(2)), label=m.group(1) or None, origin=m.group(3))
+            em.add("        " + m.group(4), item=key, part="loop:%s/%s" % (loopn, m.group(2)), label=m.group(1) or None, origin=m.group(3))
             continue
-        m = re.match(r"\s*/\*@hint (\w+)\*/ (.*)$", line)
+        m = re.match(r"\s*/\*@hint ([^*]+)\*/ (.*)$", line)
         if m:
             em.add("    " + m.group(2), item=key, part="hint:" + m.group(1))
             continue
